@@ -147,6 +147,10 @@ def normalise(item_text, drops):
             bump('#[cfg_attr(feature = "arbitrary", ..)] lines')
             i += 1
             continue
+        if s.startswith('#[cfg_attr(') and s.endswith(']'):
+            bump('#[cfg_attr(..)] lines')
+            i += 1
+            continue
         if s.startswith('#[serde') or s.startswith('#[serde_indexed'):
             # possibly multi-line
             bump('#[serde(..)] attributes')
